@@ -49,7 +49,7 @@ pub struct HEvent {
     pub t_enter: u64,
     pub t_exit: u64,
     pub cmds: Vec<String>,
-    pub sends: Vec<(u64, Vec<u8>)>,
+    pub sends: Vec<(u64, Dig)>,
     pub timer_cmds: Vec<(bool, u8)>,
     pub unserializable: u32,
 }
@@ -89,7 +89,7 @@ impl S3Actor {
                     let m = M { tag: m.tag, who: m.who.map(|w| self.fix(w)) };
                     let m = Big { blob: blob_for(m.tag, self.big_tag, self.blob_len), m };
                     if let Ok(bytes) = ser(&m) {
-                        ev.sends.push((id_u64(d), bytes));
+                        ev.sends.push((id_u64(d), dig(&bytes)));
                     } else {
                         ev.unserializable += 1;
                     }
@@ -192,6 +192,17 @@ fn de(b: &[u8]) -> Result<Big, String> {
     let m: M = serde_json::from_slice(&b[..cut]).map_err(|e| e.to_string())?;
     Ok(Big { m, blob: b[cut + 1..].to_vec() })
 }
+/// (FNV-1a digest, length): datagrams are compared by digest so that large blobs are not copied around
+type Dig = (u64, usize);
+fn dig_more(mut h: u64, bytes: &[u8]) -> u64 {
+    for b in bytes {
+        h = (h ^ *b as u64).wrapping_mul(0x0000_0100_0000_01b3);
+    }
+    h
+}
+fn dig(bytes: &[u8]) -> Dig {
+    (dig_more(0xcbf2_9ce4_8422_2325, bytes), bytes.len())
+}
 fn blob_for(tag: u8, big_tag: Option<u8>, blob_len: u32) -> Vec<u8> {
     if Some(tag) == big_tag {
         vec![b'z'; blob_len as usize]
@@ -238,7 +249,7 @@ pub fn gen_s3(seed: u64) -> S3Scenario {
         .collect();
     let horizon_ms = *rng.pick(&[100u32, 300, 800, 2500]);
     let big_tag = if rng.chance(1, 3) { Some(rng.below(g.tags as u64) as u8) } else { None };
-    let blob_len = *rng.pick(&[100u32, 1_400, 8_999, 9_001, 20_000, 60_000]);
+    let blob_len = *rng.pick(&[100u32, 1_400, 8_999, 9_001, 12_000]);
     let injections = (0..rng.below(8)).map(|_| (rng.below(horizon_ms as u64) as u32, rng.below(n as u64) as u8, rng.below(3) as u8, rng.below(g.tags as u64) as u8)).collect();
     let mut sched = crate::s1::gen::gen_sched(&mut rng, 40_000);
     sched.block_size = 0;
@@ -335,28 +346,28 @@ pub fn judge(sc: &S3Scenario, obs: &S3Obs) -> (Vec<Violation>, Counters) {
             v.push(Violation::new("C17", "start", format!("actor {}: on_start ran {} times; first event is {:?}", a, starts, evs[0].kind)));
         }
         let Some(&sock) = sock_of.get(&my_addr[a]) else { continue };
-        // datagrams handed to recv_from on this socket: (from, bytes, t, matched)
-        let mut recvd: Vec<(u64, Vec<u8>, u64, bool)> = obs
+        // datagrams handed to recv_from on this socket: (from, digest, t, matched, decodable)
+        let mut recvd: Vec<(u64, Dig, u64, bool, bool)> = obs
             .udp
             .iter()
             .filter_map(|e| match e {
-                UdpEvent::Recv { sock: s, from, bytes, t, .. } if *s == sock => Some((addr_u64(from), bytes.clone(), *t, false)),
+                UdpEvent::Recv { sock: s, from, bytes, t, .. } if *s == sock => Some((addr_u64(from), dig(bytes), *t, false, de(bytes).is_ok())),
                 _ => None,
             })
             .collect();
-        // index of unmatched decodable datagrams by (source, canonical payload)
-        let mut by_key: BTreeMap<(u64, Vec<u8>), std::collections::VecDeque<usize>> = BTreeMap::new();
+        // index of unmatched decodable datagrams by (source, content)
+        let mut by_key: BTreeMap<(u64, Dig), std::collections::VecDeque<usize>> = BTreeMap::new();
         for (i, r) in recvd.iter().enumerate() {
-            if de(&r.1).is_ok() {
-                by_key.entry((r.0, r.1.clone())).or_default().push_back(i);
+            if r.4 {
+                by_key.entry((r.0, r.1)).or_default().push_back(i);
             }
         }
         // everything this socket sent, in order
-        let sent_log: Vec<(u64, u64, Vec<u8>)> = obs
+        let sent_log: Vec<(u64, u64, Dig)> = obs
             .udp
             .iter()
             .filter_map(|u| match u {
-                UdpEvent::SendTo { sock: s, to, bytes, t, .. } if *s == sock => Some((*t, addr_u64(to), bytes.clone())),
+                UdpEvent::SendTo { sock: s, to, bytes, t, .. } if *s == sock => Some((*t, addr_u64(to), dig(bytes))),
                 _ => None,
             })
             .collect();
@@ -377,10 +388,17 @@ pub fn judge(sc: &S3Scenario, obs: &S3Obs) -> (Vec<Violation>, Counters) {
                     // an unmatched datagram, delivered before the handler ran, with this content and source
                     // what was handed over, re-encoded: it must be byte for byte a datagram that was
                     // delivered to this socket (the codec is the identity on well-formed datagrams)
-                    let mut want = serde_json::to_vec(&M { tag: *tag, who: who.map(|w| Id::from(SocketAddrV4::new(Ipv4Addr::from((w >> 16) as u32), (w & 0xffff) as u16))) }).unwrap();
-                    want.push(b'\n');
-                    want.extend(std::iter::repeat(b'z').take(*blob_len));
-                    let key = (*src, want.clone());
+                    let head = {
+                        let mut h = serde_json::to_vec(&M { tag: *tag, who: who.map(|w| Id::from(SocketAddrV4::new(Ipv4Addr::from((w >> 16) as u32), (w & 0xffff) as u16))) }).unwrap();
+                        h.push(b'\n');
+                        h
+                    };
+                    let mut hh = dig_more(0xcbf2_9ce4_8422_2325, &head);
+                    for _ in 0..*blob_len {
+                        hh = (hh ^ b'z' as u64).wrapping_mul(0x0000_0100_0000_01b3);
+                    }
+                    let want: Dig = (hh, head.len() + *blob_len);
+                    let key = (*src, want);
                     let hit = match by_key.get_mut(&key) {
                         Some(q) if q.front().map(|i| recvd[*i].2 <= e.t_enter).unwrap_or(false) => q.pop_front(),
                         _ => None,
@@ -425,17 +443,17 @@ pub fn judge(sc: &S3Scenario, obs: &S3Obs) -> (Vec<Violation>, Counters) {
             while sent_pos < sent_log.len() && sent_log[sent_pos].0 < t_hi {
                 sent_pos += 1;
             }
-            let seen: Vec<(u64, Vec<u8>)> = sent_log[from..sent_pos].iter().map(|x| (x.1, x.2.clone())).collect();
+            let seen: Vec<(u64, Dig)> = sent_log[from..sent_pos].iter().map(|x| (x.1, x.2)).collect();
             let is_last = k + 1 == evs.len();
             let ok = if is_last { e.sends.len() >= seen.len() && e.sends[..seen.len()] == seen[..] } else { e.sends == seen };
             if !ok && v.len() < 4 {
-                v.push(Violation::new("C17", "send-mismatch", format!("actor {}: handler {:?} emitted sends {:?} but its socket sent {:?}", a, e.kind, e.sends.iter().map(|s| (format!("{:x}", s.0), String::from_utf8_lossy(&s.1).to_string())).collect::<Vec<_>>(), seen.iter().map(|s| (format!("{:x}", s.0), String::from_utf8_lossy(&s.1).to_string())).collect::<Vec<_>>())));
+                v.push(Violation::new("C17", "send-mismatch", format!("actor {}: handler {:?} emitted sends (destination, digest, length) {:x?} but its socket sent {:x?} (commands: {:?})", a, e.kind, e.sends, seen, e.cmds)));
             }
             c.add("sends_checked", e.sends.len() as u64);
             c.add("fault_unserializable_message_sent", e.unserializable as u64);
         }
-        c.add("probe_datagrams_delivered_not_handed", recvd.iter().filter(|r| !r.3 && de(&r.1).is_ok()).count() as u64);
-        c.add("fault_undecodable_datagram_delivered", recvd.iter().filter(|r| de(&r.1).is_err()).count() as u64);
+        c.add("probe_datagrams_delivered_not_handed", recvd.iter().filter(|r| !r.3 && r.4).count() as u64);
+        c.add("fault_undecodable_datagram_delivered", recvd.iter().filter(|r| !r.4).count() as u64);
     }
     // id <-> address round trips on every address used and on seeded ones
     let mut rng = Rng::new(sc.sched.seed ^ 0x1d);
